@@ -1,11 +1,12 @@
 """Implementation side of C18: real Graph.get_nodes_from_range/idx/lvl on arrays and trees."""
 import json
 import sys
-from harness.impl import emit
+from harness.impl import emit, protect_stdout
 from floogen.model.graph import Graph
 
 
 def main():
+    protect_stdout()
     cache = {}
     for line in sys.stdin:
         c = json.loads(line)
